@@ -606,5 +606,67 @@ def run(rep, facts, tier):
     # the copy window of the fragment assembler (shared with C05 R05.12): the clamp to the buffer is what keeps a padded / hostile last fragment from slicing past the end
     from rules.C05 import rule_copy_window
     rule_copy_window(rep, facts['default'], 'R06.5')
+    rule_06_6(rep, facts['default'])
     if 'security' in facts:
         run_config(rep, facts['security'], 'security', floor=False)
+        rule_06_6(rep, facts['security'], pre='security:')
+
+
+def rule_06_6(rep, fx, pre=''):
+    """Parsing loops over a datagram (after seed C06f: a lenient loop that goes on after an error, over a parser that fails before consuming anything, spins for ever on 1-3
+    stray bytes and takes the single receive thread with it)."""
+    from rdv.core import natural_loops
+    if not pre:
+        rep.rule('R06.6', 'parsing loops consume input on every cycle: in every loop that calls Submessage::read_from_buffer on the remaining bytes, the error edge of that call (Err / '
+                          'the Break of `?`) leaves the loop - no path from it returns to the call -, and Submessage::read_from_buffer consumes at least the 4-byte header on every path '
+                          'to an Ok(..): buffer.split_to(4 + n) on the buffer it was given. A cycle of the loop therefore shortens a finite buffer')
+    n = 0
+    for b in fx.bodies:
+        calls = [(bb, t) for bb, t in b.calls() if callee_res(t).endswith('Submessage::read_from_buffer')]
+        if not calls or b.key.endswith('Submessage::read_from_buffer') or b.j.get('test') or '::tests::' in b.key or '::test' in b.key:
+            continue
+        loops = natural_loops(b)
+        og = Origins(b, summaries=False)
+        P = Pos(b)
+        edges = list(switch_edges(b, fx, og))
+        for bb, t in calls:
+            inl = [l for l in loops if bb in l[1]]
+            if not inl:
+                continue
+            n += 1
+            blocks = inl[0][1]
+            # the remaining-bytes buffer must be the same object on every cycle: the call's argument is a &mut to a local of the function, not a fresh copy made in the loop
+            errs = [(s_, t_) for s_, t_, cond, lab in edges if lab in ('Err', 'Break') and cond[0] == 'discr' and term_has(cond, lambda x: x[0] == 'call' and len(x) > 3 and x[3] == bb and x[1].endswith('read_from_buffer'))]
+            ok = bool(errs) and not any(P.can_reach((t_, 0), (bb, 'term')) for s_, t_ in errs)
+            # results that are neither Ok nor Err-tested (e.g. `.ok()`, `if let Ok(..)`) hide the error edge: require that the result is inspected by a switch at all
+            rep.check(ok, 'R06.6', '%s%s/error-leaves-loop#%d' % (pre, b.key.rsplit('::', 2)[-2] + '::' + b.key.rsplit('::', 1)[-1], n), 'Err => out of the loop',
+                      '%s goes on parsing after Submessage::read_from_buffer failed (or does not look at the failure): that parser can fail before it has consumed a byte (fewer than 4 '
+                      'bytes left, declared length beyond the end), so the loop sees the same bytes again - one datagram with a stray tail spins the receive thread for ever' %
+                      b.key.rsplit('::', 1)[-1], b.where(bb))
+    rep.floor('R06.6', n, 1, 'loops over Submessage::read_from_buffer (%s)' % (pre or 'default'))
+    sb = fx.find('rtps::submessage::Submessage::read_from_buffer')
+    rep.analysed(sb)
+    og = Origins(sb, summaries=False)
+    P = Pos(sb)
+    splits = []
+    for bb, t in sb.calls():
+        if callee_res(t).endswith(('Bytes::split_to', 'Buf::advance', 'Bytes::advance')) and _plain6(og.of_operand(t['args'][0], bb, 'term')) == ('param', 1):
+            amt = og.of_operand(t['args'][1], bb, 'term')
+            if term_has(amt, lambda x: x[0] == 'const' and str(x[2]) == '4') and term_has(amt, lambda x: x[0] == 'bin' and x[1].startswith('Add')):
+                splits.append((bb, 'term'))
+    oks = [(bb, si) for bb, si, st in sb.statements() if st['s'] == 'assign' and st['lhs']['l'] == 0 and not st['lhs'].get('p') and st['rv']['r'] == 'agg' and st['rv'].get('variant') == 'Ok']
+    # Ok values produced by the constructor closures are returned through calls: every return that is not an explicit Err must lie behind the split as well
+    errs = [(bb, si) for bb, si, st in sb.statements() if st['s'] == 'assign' and st['lhs']['l'] == 0 and not st['lhs'].get('p') and st['rv']['r'] == 'agg' and st['rv'].get('variant') == 'Err']
+    ok = bool(splits) and all(P.every_path_passes(None, o, via_pos=splits, from_entry=True) for o in oks)
+    early = [(s_, t_) for s_, t_, cond, lab in switch_edges(sb, fx, og) if lab in ('Break', 'Err')]
+    for r in sb.return_blocks():
+        if not P.every_path_passes(None, (r, 'term'), via_pos=splits + errs, via_edges=early, from_entry=True):
+            ok = False
+    rep.check(ok, 'R06.6', '%sSubmessage::read_from_buffer/consumes' % pre, 'every non-error return lies behind buffer.split_to(4 + n)',
+              'Submessage::read_from_buffer can return Ok without having taken at least the submessage header off the buffer: the caller\'s loop does not advance', sb.where())
+
+
+def _plain6(t):
+    while isinstance(t, tuple) and t and t[0] in ('ref', 'deref', 'copy', 'move', 'mutated') and len(t) > 1 and isinstance(t[1], tuple):
+        t = t[1]
+    return t
